@@ -27,16 +27,19 @@ void br_automata_destroy(void *p) {
     if (a->extra) lltd_port_free(a->extra);
     lltd_port_free(a);
 }
+/* the log tag the switch functions are handed: a short text, or NULL (allowed: the code prints "?" then) */
+static char *g_tag = "verif";
+void br_set_log_tag_null(int on) { g_tag = on ? NULL : "verif"; }
 int br_switch_mapping(void *a, int input) {
-    switch_state_mapping((automata *)a, input, "verif");
+    switch_state_mapping((automata *)a, input, g_tag);
     return ((automata *)a)->current_state;
 }
 int br_switch_enumeration(void *a, int input) {
-    switch_state_enumeration((automata *)a, input, "verif");
+    switch_state_enumeration((automata *)a, input, g_tag);
     return ((automata *)a)->current_state;
 }
 int br_switch_session(void *a, int input) {
-    switch_state_session((automata *)a, input, "verif");
+    switch_state_session((automata *)a, input, g_tag);
     return ((automata *)a)->current_state;
 }
 int br_aut_state(void *a) { return ((automata *)a)->current_state; }
